@@ -386,3 +386,14 @@ pub fn iter_ne<A: Iterator, B: Iterator>(a: A, b: B) -> (r: bool)
 pub fn iter_count<A: Iterator>(a: A) -> (r: usize)
     ensures a.obeys_prophetic_iter_laws() ==> a.will_return_none() && r == a.remaining().len(),
 { unimplemented!() }
+
+// rpki::rtr::Serial also compares with a bare u32 (same contract as in units/history/env.rs,
+// discharged there by the Kani harness serial_eq_from_contract)
+impl PartialEqSpecImpl<u32> for Serial {
+    open spec fn obeys_eq_spec() -> bool { true }
+    open spec fn eq_spec(&self, other: &u32) -> bool { self.0 == *other }
+}
+impl PartialEq<u32> for Serial {
+    #[verifier::external_body]
+    fn eq(&self, other: &u32) -> bool { unimplemented!() }
+}
